@@ -442,6 +442,56 @@ Proof.
   - intros q Hq. apply reg_get_add_other. rewrite Hp. congruence.
 Qed.
 
+(** ** the module table: keys in place; modules change only in their set of item paths *)
+Definition mod_eq (m m' : smodule) : Prop :=
+  m_path m = m_path m' /\ m_ast m = m_ast m' /\ m_impls m = m_impls m' /\
+  m_extern_values m = m_extern_values m'.
+Definition mods_rel (ms ms0 : list (path * smodule)) : Prop :=
+  Forall2 (fun km km0 => fst km = fst km0 /\ mod_eq (snd km) (snd km0)) ms ms0.
+
+Lemma mod_eq_refl m : mod_eq m m.
+Proof. repeat split. Qed.
+Lemma mod_eq_trans a b c : mod_eq a b -> mod_eq b c -> mod_eq a c.
+Proof. intros (A1 & B1 & C1 & D1) (A2 & B2 & C2 & D2). repeat split; congruence. Qed.
+
+Lemma mods_rel_refl ms : mods_rel ms ms.
+Proof. induction ms as [|km ms IH]; constructor; [split; [reflexivity | apply mod_eq_refl] | exact IH]. Qed.
+
+Lemma mods_rel_insert ms ms0 k m m' :
+  mods_rel ms ms0 -> alookup k ms = Some m -> mod_eq m' m -> mods_rel (ainsert k m' ms) ms0.
+Proof.
+  induction 1 as [|[k1 m1] [k0 m0] ms ms0 [Hk He] Hrest IH]; cbn [alookup ainsert]; [discriminate|].
+  cbn [fst snd] in *. subst k0. destruct (path_eqb_spec k k1) as [->|Hne]; intros Hl Hm.
+  - inversion Hl; subst m1. constructor; [|exact Hrest]. split; [reflexivity|]. eapply mod_eq_trans; eauto.
+  - constructor; [split; [reflexivity | exact He] | apply IH; assumption].
+Qed.
+
+Lemma mods_rel_lookup ms ms0 k m : mods_rel ms ms0 -> alookup k ms = Some m ->
+  exists m0, alookup k ms0 = Some m0 /\ mod_eq m m0.
+Proof.
+  induction 1 as [|[k1 m1] [k0 m0] ms ms0 [Hk He] _ IH]; cbn [alookup]; [discriminate|].
+  cbn [fst snd] in *. subst k0. destruct (path_eqb k k1); [intros H; inversion H; subst; eauto | exact IH].
+Qed.
+
+Lemma add_item_mods_rel st it st' ms0 : mods_rel (st_modules st) ms0 -> add_item st it = Ok st' ->
+  mods_rel (st_modules st') ms0.
+Proof.
+  intros HM H. unfold add_item in H. destruct (path_parent (it_path it)) as [parent|]; [|discriminate].
+  destruct (alookup parent (st_modules st)) as [m|] eqn:Em; [|discriminate].
+  inversion H; subst st'. cbn [st_modules]. eapply mods_rel_insert; [exact HM | exact Em | repeat split].
+Qed.
+
+Lemma attempt_mods_rel st p gd st' o ms0 : mods_rel (st_modules st) ms0 -> attempt st p gd = (st', o) ->
+  mods_rel (st_modules st') ms0.
+Proof.
+  intros HM H. unfold attempt in H. destruct (gi_inner gd) as [td|ed].
+  - destruct (type_build_step _ _ _ _ _ _ H) as [->|v fs vit _ _ Hadd]; [exact HM | eapply add_item_mods_rel; eauto].
+  - inversion H; subst. exact HM.
+Qed.
+
+Lemma set_resolved_modules st p r : st_modules (set_resolved st p r) = st_modules st.
+Proof. unfold set_resolved. destruct (reg_get (st_reg st) p); reflexivity. Qed.
+
 (** ** one attempt *)
 Lemma attempt_inv R0 st p it gd st' o :
   collision_free R0 -> Inv R0 (st_reg st) -> keyed (st_reg st) ->
@@ -463,16 +513,16 @@ Proof.
 Qed.
 
 (** ** the items of the final registry were built by attempts *)
-Definition built (R0 : registry) (st_a st_b : sstate) (p : path) (r : resolved) : Prop :=
+Definition built (R0 : registry) (ms0 : list (path * smodule)) (st_a st_b : sstate) (p : path) (r : resolved) : Prop :=
   exists st_mid st_mid' it gd,
-    ext R0 (st_reg st_a) (st_reg st_mid) /\ (Inv R0 (st_reg st_mid) /\ keyed (st_reg st_mid)) /\
+    ext R0 (st_reg st_a) (st_reg st_mid) /\ (Inv R0 (st_reg st_mid) /\ keyed (st_reg st_mid) /\ mods_rel (st_modules st_mid) ms0) /\
     reg_get (st_reg st_mid) p = Some it /\ it_state it = Unresolved gd /\
     attempt st_mid p gd = (st_mid', Ok r) /\ ext R0 (st_reg st_mid') (st_reg st_b) /\
     ext R0 (st_reg (set_resolved st_mid' p r)) (st_reg st_b).
 
-Lemma built_weaken R0 st_a st_a' st_b st_b' p r :
+Lemma built_weaken R0 ms0 st_a st_a' st_b st_b' p r :
   ext R0 (st_reg st_a') (st_reg st_a) -> ext R0 (st_reg st_b) (st_reg st_b') ->
-  built R0 st_a st_b p r -> built R0 st_a' st_b' p r.
+  built R0 ms0 st_a st_b p r -> built R0 ms0 st_a' st_b' p r.
 Proof.
   intros Ha Hb (m & m' & it & gd & H1 & H2 & H3 & H4 & H5 & H6 & H7).
   exists m, m', it, gd.
@@ -483,34 +533,36 @@ Qed.
 Definition resolved_at (st : sstate) (p : path) (r : resolved) : Prop :=
   exists it, reg_get (st_reg st) p = Some it /\ it_state it = Resolved r.
 
-Lemma resolve_pass_built R0 : collision_free R0 -> forall ps st st',
-  Inv R0 (st_reg st) -> keyed (st_reg st) -> resolve_pass st ps = inl st' ->
-  Inv R0 (st_reg st') /\ keyed (st_reg st') /\ ext R0 (st_reg st) (st_reg st') /\
-  forall p r, reg_get R0 p <> None -> resolved_at st' p r -> resolved_at st p r \/ built R0 st st' p r.
+Lemma resolve_pass_built R0 ms0 : collision_free R0 -> forall ps st st',
+  Inv R0 (st_reg st) -> keyed (st_reg st) -> mods_rel (st_modules st) ms0 -> resolve_pass st ps = inl st' ->
+  Inv R0 (st_reg st') /\ keyed (st_reg st') /\ mods_rel (st_modules st') ms0 /\ ext R0 (st_reg st) (st_reg st') /\
+  forall p r, reg_get R0 p <> None -> resolved_at st' p r -> resolved_at st p r \/ built R0 ms0 st st' p r.
 Proof.
-  intros Hcf. induction ps as [|p ps IH]; intros st st' HI HK H; cbn [resolve_pass] in H.
-  - inversion H; subst. split; [exact HI|]. split; [exact HK|]. split; [apply ext_refl|]. intros; now left.
+  intros Hcf. induction ps as [|p ps IH]; intros st st' HI HK HM H; cbn [resolve_pass] in H.
+  - inversion H; subst. split; [exact HI|]. split; [exact HK|]. split; [exact HM|]. split; [apply ext_refl|]. intros; now left.
   - destruct (reg_get (st_reg st) p) as [it|] eqn:Hg; [|discriminate].
     destruct (it_state it) as [gd|r0] eqn:Hs; [|now apply IH].
     destruct (attempt st p gd) as [st1 o] eqn:Hat.
     destruct (attempt_inv _ _ _ _ _ _ _ Hcf HI HK Hg Hs Hat) as (HI1 & HK1 & Hext1 & Hback1).
+    pose proof (attempt_mods_rel _ _ _ _ _ _ HM Hat) as HM1.
     destruct (Inv_unresolved _ _ _ _ _ HI Hg Hs) as (it0 & Hg0 & Hs0).
     assert (reg_get (st_reg st1) p = Some it) as Hg1 by (rewrite Hback1; [exact Hg | congruence]).
     destruct o as [r| |m|m]; try discriminate.
     + (* resolved now *)
       destruct (set_resolved_inv R0 st1 p it gd r Hcf HI1 HK1 Hg1 Hs) as (HI2 & HK2 & Hext2 & (it2 & Hg2 & Hs2) & Hoth).
-      destruct (IH _ _ HI2 HK2 H) as (HI' & HK' & Hext' & Hall).
-      split; [exact HI'|]. split; [exact HK'|]. split; [eauto using ext_trans|].
+      assert (mods_rel (st_modules (set_resolved st1 p r)) ms0) as HM2 by (rewrite set_resolved_modules; exact HM1).
+      destruct (IH _ _ HI2 HK2 HM2 H) as (HI' & HK' & HM' & Hext' & Hall).
+      split; [exact HI'|]. split; [exact HK'|]. split; [exact HM'|]. split; [eauto using ext_trans|].
       intros q r' Hq Hres. destruct (Hall _ _ Hq Hres) as [(itq & Hgq & Hsq)|Hb].
       * destruct (path_eqb_spec q p) as [->|Hne].
         -- right. rewrite Hg2 in Hgq. inversion Hgq; subst itq. rewrite Hs2 in Hsq. inversion Hsq; subst r'.
-           exists st, st1, it, gd. split; [apply ext_refl|]. split; [split; [exact HI | exact HK]|]. split; [exact Hg|]. split; [exact Hs|].
+           exists st, st1, it, gd. split; [apply ext_refl|]. split; [split; [exact HI | split; [exact HK | exact HM]]|]. split; [exact Hg|]. split; [exact Hs|].
            split; [exact Hat|]. split; [eapply ext_trans; eauto | exact Hext'].
         -- left. exists itq. split; [|exact Hsq]. rewrite Hoth in Hgq by exact Hne. rewrite Hback1 in Hgq by exact Hq. exact Hgq.
       * right. eapply built_weaken; [| apply ext_refl | exact Hb]. eauto using ext_trans.
     + (* deferred *)
-      destruct (IH _ _ HI1 HK1 H) as (HI' & HK' & Hext' & Hall).
-      split; [exact HI'|]. split; [exact HK'|]. split; [eauto using ext_trans|].
+      destruct (IH _ _ HI1 HK1 HM1 H) as (HI' & HK' & HM' & Hext' & Hall).
+      split; [exact HI'|]. split; [exact HK'|]. split; [exact HM'|]. split; [eauto using ext_trans|].
       intros q r' Hq Hres. destruct (Hall _ _ Hq Hres) as [(itq & Hgq & Hsq)|Hb].
       * left. exists itq. split; [|exact Hsq]. rewrite Hback1 in Hgq by exact Hq. exact Hgq.
       * right. eapply built_weaken; [| apply ext_refl | exact Hb]. exact Hext1.
@@ -524,19 +576,19 @@ Proof.
   destruct (attempt st p gd) as [st1 [r1| |m|m]]; eauto; inversion H; discriminate.
 Qed.
 
-Theorem resolve_loop_built R0 order : collision_free R0 -> forall fuel st st',
-  Inv R0 (st_reg st) -> keyed (st_reg st) -> resolve_loop order fuel st = BOk st' ->
-  Inv R0 (st_reg st') /\ ext R0 (st_reg st) (st_reg st') /\
-  forall p r, reg_get R0 p <> None -> resolved_at st' p r -> resolved_at st p r \/ built R0 st st' p r.
+Theorem resolve_loop_built R0 ms0 order : collision_free R0 -> forall fuel st st',
+  Inv R0 (st_reg st) -> keyed (st_reg st) -> mods_rel (st_modules st) ms0 -> resolve_loop order fuel st = BOk st' ->
+  Inv R0 (st_reg st') /\ mods_rel (st_modules st') ms0 /\ ext R0 (st_reg st) (st_reg st') /\
+  forall p r, reg_get R0 p <> None -> resolved_at st' p r -> resolved_at st p r \/ built R0 ms0 st st' p r.
 Proof.
-  intros Hcf. induction fuel as [|fuel IH]; intros st st' HI HK H; cbn [resolve_loop] in H; [discriminate|].
+  intros Hcf. induction fuel as [|fuel IH]; intros st st' HI HK HM H; cbn [resolve_loop] in H; [discriminate|].
   destruct (order (reg_unresolved (st_reg st))) as [|p0 ps] eqn:Eo.
-  - inversion H; subst. split; [exact HI|]. split; [apply ext_refl|]. intros; now left.
+  - inversion H; subst. split; [exact HI|]. split; [exact HM|]. split; [apply ext_refl|]. intros; now left.
   - destruct (resolve_pass st (p0 :: ps)) as [st1|res] eqn:Ep; [|subst; exfalso; eapply resolve_pass_abort_not_ok; eauto].
     destruct (Nat.eqb _ _); [discriminate|].
-    destruct (resolve_pass_built R0 Hcf _ _ _ HI HK Ep) as (HI1 & HK1 & Hext1 & Hall1).
-    destruct (IH _ _ HI1 HK1 H) as (HI' & Hext' & Hall').
-    split; [exact HI'|]. split; [eauto using ext_trans|].
+    destruct (resolve_pass_built R0 ms0 Hcf _ _ _ HI HK HM Ep) as (HI1 & HK1 & HM1 & Hext1 & Hall1).
+    destruct (IH _ _ HI1 HK1 HM1 H) as (HI' & HM' & Hext' & Hall').
+    split; [exact HI'|]. split; [exact HM'|]. split; [eauto using ext_trans|].
     intros q r Hq Hres. destruct (Hall' _ _ Hq Hres) as [Hr1|Hb].
     + destruct (Hall1 _ _ Hq Hr1) as [Hr0|Hb1]; [left; exact Hr0|].
       right. eapply built_weaken; [apply ext_refl | exact Hext' | exact Hb1].
@@ -564,22 +616,23 @@ Theorem sem_build_items order st0 st :
       ext R0 R0 (st_reg st_mid) /\ attempt st_mid p gd = (st_mid', Ok r) /\
       ext R0 (st_reg st_mid) (st_reg st_mid') /\ ext R0 (st_reg st_mid') (st_reg st) /\
       ext R0 (st_reg (set_resolved st_mid' p r)) (st_reg st) /\
-      exists itm, reg_get (st_reg st_mid) p = Some itm /\ it_state itm = Unresolved gd /\ it_path itm = p.
+      (exists itm, reg_get (st_reg st_mid) p = Some itm /\ it_state itm = Unresolved gd /\ it_path itm = p) /\
+      mods_rel (st_modules st_mid) (st_modules st0).
 Proof.
   intros Hcf HK H. cbn zeta. unfold sem_build in H.
   destruct (resolve_loop order _ st0) as [st1| | | |] eqn:El; try discriminate.
   rewrite (finish_build_reg _ _ H).
-  destruct (resolve_loop_built _ order Hcf _ _ _ (Inv_init _) HK El) as (HI1 & Hext & Hall).
+  destruct (resolve_loop_built _ (st_modules st0) order Hcf _ _ _ (Inv_init _) HK (mods_rel_refl _) El) as (HI1 & _ & Hext & Hall).
   split; [exact Hext|]. intros p it0 gd it r Hg0 Hs0 Hg Hs.
   destruct (Hall p r) as [(it0' & Hg0' & Hs0')|(m & m' & itm & gdm & H1 & H2 & H3 & H4 & H5 & H6 & H7)].
   - rewrite Hg0; discriminate.
   - exists it; auto.
   - rewrite Hg0 in Hg0'. inversion Hg0'; subst. congruence.
-  - destruct H2 as [H2 H2k]. destruct (Inv_unresolved _ _ _ _ _ H2 H3 H4) as (it0' & Hg0' & Hs0').
+  - destruct H2 as (H2 & H2k & H2m). destruct (Inv_unresolved _ _ _ _ _ H2 H3 H4) as (it0' & Hg0' & Hs0').
     rewrite Hg0 in Hg0'. inversion Hg0'; subst it0'. rewrite Hs0 in Hs0'. inversion Hs0'; subst gdm.
     destruct (attempt_inv _ _ _ _ _ _ _ Hcf H2 H2k H3 H4 H5) as (_ & _ & Hmm & _).
     exists m, m'. split; [exact H1|]. split; [exact H5|]. split; [exact Hmm|]. split; [exact H6|]. split; [exact H7|].
-    exists itm. split; [exact H3|]. split; [exact H4 | apply H2k; exact H3].
+    split; [|exact H2m]. exists itm. split; [exact H3|]. split; [exact H4 | apply H2k; exact H3].
 Qed.
 
 (** the states pyxis builds its registry in: [sem_new], then [add_module] for every module *)
@@ -613,7 +666,8 @@ Theorem pyxis_resolve_items order ptr mods st0 st :
       ext R0 R0 (st_reg st_mid) /\ attempt st_mid p gd = (st_mid', Ok r) /\
       ext R0 (st_reg st_mid) (st_reg st_mid') /\ ext R0 (st_reg st_mid') (st_reg st) /\
       ext R0 (st_reg (set_resolved st_mid' p r)) (st_reg st) /\
-      exists itm, reg_get (st_reg st_mid) p = Some itm /\ it_state itm = Unresolved gd /\ it_path itm = p.
+      (exists itm, reg_get (st_reg st_mid) p = Some itm /\ it_state itm = Unresolved gd /\ it_path itm = p) /\
+      mods_rel (st_modules st_mid) (st_modules st0).
 Proof.
   intros Hin Hcf H. destruct (pyxis_resolve_input _ _ _ _ H) as (st0' & Hin' & Hb).
   rewrite Hin in Hin'. inversion Hin'; subst st0'.
@@ -922,7 +976,7 @@ Theorem whole_build_vftable order ptr mods st0 st p it0 gd td0 it r s rest gfs :
 Proof.
   intros Hin Hcf Hres Hg0 Hs0 Hty Hg Hs Hst Hf.
   destruct (pyxis_resolve_items _ _ _ _ _ Hin Hcf Hres) as (_ & Hall).
-  destruct (Hall _ _ _ _ _ Hg0 Hs0 Hg Hs) as (m & m' & Hext0 & Hat & Hmm' & Hext & Hext2 & itm & Hgm & Hsm & Hkm).
+  destruct (Hall _ _ _ _ _ Hg0 Hs0 Hg Hs) as (m & m' & Hext0 & Hat & Hmm' & Hext & Hext2 & (itm & Hgm & Hsm & Hkm) & _).
   unfold attempt in Hat. rewrite Hty in Hat.
   destruct (type_build_inv _ _ _ _ _ _ Hat) as
       (parent & module & doc & ta & n & pending & vfs & regions & vt & size & funcs & A &
@@ -955,4 +1009,76 @@ Proof.
   split; [exact Hsz|]. split; [exact Hconv|]. split; [exact Hvp|].
   split; [unfold vftable_item in *; rewrite <- Hptr1; destruct Hmm' as (Hpm & _); rewrite <- Hpm; exact Evi|].
   split; [exact Hfinal|]. split; [reflexivity|]. split; [exact Hvt|]. split; reflexivity.
+Qed.
+
+(** the associated functions of an accepted type: injected base functions, then the impl block *)
+Lemma type_build_inv_assoc st p v d st' rs :
+  type_build st p v d = (st', Ok rs) ->
+  exists parent module td regions acc1 acc2,
+    path_parent p = Some parent /\ alookup parent (st_modules st) = Some module /\
+    rs_inner rs = IType td /\ td_regions td = regions /\
+    inject_bases (st_reg st') (filter r_is_base regions) O
+                 ([], match td_vftable td with Some v' => map sf_name (vt_functions v') | None => [] end) = Ok acc1 /\
+    match alookup p (m_impls module) with
+    | Some blk => foldM (add_impl_function (st_reg st') (module_scope module)) (gb_fns blk) acc1
+    | None => Ok acc1
+    end = Ok acc2 /\
+    td_assoc td = fst acc2.
+Proof.
+  unfold type_build. intros H.
+  destruct (path_parent p) as [parent|] eqn:Epar; [|inversion H].
+  destruct (alookup parent (st_modules st)) as [module|] eqn:Emod; [|inversion H].
+  match type of H with context [match ?pre with Ok _ => _ | Defer => _ | Err _ => _ | Panic _ => _ end] =>
+    destruct pre as [[[doc ta] [pending vfs]]| | |] eqn:Epre end; try (inversion H; fail).
+  destruct (resolve_regions st p v (ta_size ta) pending vfs) as [[[[st1 regions] vt] size]| | |] eqn:Err;
+    try (inversion H; fail).
+  inversion H as [[Hst Hpost]]. subst st'. clear H.
+  inv_bind Hpost. inv_bind Hpost. inv_bind Hpost. inv_bind Hpost.
+  inversion Hpost; subst. clear Hpost.
+  do 6 eexists. cbn [rs_inner td_regions td_vftable td_assoc]. repeat split; eauto.
+Qed.
+
+Lemma FunctionLemmas_impl_kept R scope : forall fs acc acc',
+  foldM (add_impl_function R scope) fs acc = Ok acc' ->
+  exists new, fst acc' = fst acc ++ new /\
+    Forall2 (fun f sf => function_build R scope false f = Ok sf) fs new.
+Proof.
+  induction fs as [|f fs IH]; intros acc acc' H; cbn [foldM] in H.
+  - inversion H; subst. exists []. split; [now rewrite app_nil_r | constructor].
+  - inv_bind H. unfold add_impl_function in Ha. destruct (str_mem (gf_name f) (snd acc)); [discriminate|].
+    inv_bind Ha. inversion Ha; subst a. clear Ha.
+    destruct (IH _ _ H) as (new & Hnew & Hall). cbn [fst] in Hnew.
+    exists (a0 :: new). split; [rewrite Hnew, <- app_assoc; reflexivity | constructor; assumption].
+Qed.
+
+(** ** C05 / C16, end to end: every function declared in the impl block of a type of an accepted
+    build is, in the final registry, an associated function of that type built by [function_build]
+    from its declaration (so [C05_main] gives its address, parameters and return type, [C16_main]
+    its calling convention), after the functions inherited from the bases *)
+Theorem whole_build_impl_functions order ptr mods st0 st p it0 gd td0 it r parent module0 blk :
+  input_state ptr mods = Ok st0 -> collision_free (st_reg st0) ->
+  pyxis_resolve order ptr mods = BOk st ->
+  reg_get (st_reg st0) p = Some it0 -> it_state it0 = Unresolved gd -> gi_inner gd = GIType td0 ->
+  reg_get (st_reg st) p = Some it -> it_state it = Resolved r ->
+  path_parent p = Some parent -> alookup parent (st_modules st0) = Some module0 ->
+  alookup p (m_impls module0) = Some blk ->
+  exists td R_mid inherited own,
+    rs_inner r = IType td /\ ext (st_reg st0) R_mid (st_reg st) /\
+    td_assoc td = inherited ++ own /\
+    Forall2 (fun f sf => function_build R_mid (module_scope module0) false f = Ok sf) (gb_fns blk) own.
+Proof.
+  intros Hin Hcf Hres Hg0 Hs0 Hty Hg Hs Hpar0 Hmod0 Hblk.
+  destruct (pyxis_resolve_items _ _ _ _ _ Hin Hcf Hres) as (_ & Hall).
+  destruct (Hall _ _ _ _ _ Hg0 Hs0 Hg Hs) as (m & m' & Hext0 & Hat & Hmm' & Hext & _ & _ & HM).
+  unfold attempt in Hat. rewrite Hty in Hat.
+  destruct (type_build_inv_assoc _ _ _ _ _ _ Hat) as
+      (parent' & module & td & regions & acc1 & acc2 & Hpar & Hmod & Hi & _ & _ & Himpl & Hassoc).
+  rewrite Hpar0 in Hpar. inversion Hpar; subst parent'.
+  destruct (mods_rel_lookup _ _ _ _ HM Hmod) as (m0 & Hm0 & (Hpath & Hast & Himpls & _)).
+  rewrite Hmod0 in Hm0. inversion Hm0; subst m0.
+  assert (module_scope module = module_scope module0) as Hscope by (unfold module_scope; congruence).
+  rewrite Himpls, Hblk, Hscope in Himpl.
+  destruct (FunctionLemmas_impl_kept _ _ _ _ _ Himpl) as (new & Hnew & Hall2).
+  exists td, (st_reg m'), (fst acc1), new. split; [exact Hi|]. split; [exact Hext|].
+  split; [rewrite Hassoc; exact Hnew | exact Hall2].
 Qed.
